@@ -15,6 +15,7 @@ def run(run, model):
     run.do(marker.report_rule, model, "C10.own-release", marker.MARKER_REGIONS, "the state after the activation equals the state before it: removal by the owner only, or restore of the entry snapshot", as_rule="C11.exact-restore")
     run.do(marker.finally_clean, model)
     run.do(effects.handlers_rule, model)
+    run.do(effects.lazy_user_code, model)
     for role, ck in gates.checkers(model).items():
         for kind in ("PRE", "POST"):
             for ev in ck.by_kind.get(kind, []):
@@ -26,3 +27,4 @@ def run(run, model):
     run.minimum("C11.handlers", 3, "not_check, message generation, at least one self-lookup")
     run.minimum("C11.finally-clean", 5)
     run.minimum("C11.no-drop", 5)
+    run.minimum("C11.no-lazy-user-code", 10)
